@@ -298,10 +298,25 @@ inductive DDir where
   | accepted (pn : Nat)    -- load/pn/accepted
 deriving DecidableEq, Repr
 
+/-- `asIs`: the delete_old_all branch before /repo commit 867b445 (side files kept through
+    keep_traj_fnames are left behind, `rmdir` then fails); `repaired`: the current code. -/
+inductive Variant where
+  | asIs | repaired
+deriving DecidableEq, Repr
+
+/-- the settings the delete block reads -/
+structure DelCfg where
+  delAll : Bool
+  variant : Variant
+  keep : List String
+deriving Repr
+
 structure St where
   n : Nat                              -- REPEX_state.n  (= number of ensembles + 1)
   delOld : Bool                        -- config output.delete_old
   delAll : Bool                        -- config output.delete_old_all
+  variant : Variant                    -- which version of the delete_old_all branch
+  keep : List String                   -- pstore.keep_traj_fnames
   trajNum : Nat                        -- config current.traj_num
   live : List Nat                      -- path numbers in the ensembles (live_paths())
   trajData : List (Nat × List String)  -- pn ↦ adress (basenames below load/pn/accepted)
@@ -313,6 +328,8 @@ structure St where
   cnt : Nat                            -- ghost: replacements since the last write_toml
   txt : List (Nat × List String)       -- ghost: what load/pn/traj.txt references
 deriving Repr
+
+def St.delCfg (s : St) : DelCfg := { delAll := s.delAll, variant := s.variant, keep := s.keep }
 
 def lookup {α : Type} (k : Nat) : List (Nat × α) → Option α
   | [] => none
@@ -342,6 +359,28 @@ def storeNew (s : St) (files kept : List String) : St :=
     disk := [DFile.txt pn 0, .txt pn 2, .txt pn 1] ++ (files ++ kept).map (DFile.acc pn) ++ s.disk,
     txt := (pn, files) :: s.txt }
 
+/-- `os.path.splitext(name)[0]` for a basename: cut at the last dot unless only dots precede it -/
+def stemOf (s : String) : String :=
+  let cs := s.toList
+  let rev := cs.reverse
+  match rev.idxOf? '.' with
+  | none => s
+  | some k =>
+    let i := cs.length - 1 - k          -- index of the last '.'
+    if (cs.take i).all (· == '.') then s else String.ofList (cs.take i)
+
+/-- the names `splitext(adress)[0] + ext` the repaired code looks for -/
+def sideFiles (pd : Nat) (adr keep : List String) : List DFile :=
+  adr.flatMap (fun a => keep.map (fun e => DFile.acc pd (stemOf a ++ e)))
+
+/-- `if os.path.isfile(base + ext): os.remove(base + ext)` for every adress and extension -/
+def removeSides (pd : Nat) (adr keep : List String) (d : List DFile) : List DFile :=
+  d.filter (fun f => f ∉ sideFiles pd adr keep)
+
+/-- what the delete_old_all branch removes before the two `rmdir`s -/
+def cleanDir (c : DelCfg) (pd : Nat) (adr : List String) (d : List DFile) : List DFile :=
+  removeTxts pd (match c.variant with | .asIs => d | .repaired => removeSides pd adr c.keep d)
+
 def isAccOf (pd : Nat) : DFile → Bool
   | .acc p _ => p == pd
   | _ => false
@@ -357,7 +396,7 @@ def rmdirs (pd : Nat) (disk : List DFile) (dirs : List DDir) : List DDir × Opti
     else (dirs1.filter (· ≠ .path pd), none)
 
 /-- the body of `if len(self.pn_olds) > self.n - 2:` on (pn_olds, files, directories) -/
-def delHeadCore (delAll : Bool) (olds : List (Nat × List String)) (disk : List DFile) (dirs : List DDir) :
+def delHeadCore (c : DelCfg) (olds : List (Nat × List String)) (disk : List DFile) (dirs : List DDir) :
     List (Nat × List String) × List DFile × List DDir × Option Err :=
   match olds with
   | [] => (olds, disk, dirs, some .stopIteration)          -- next(iter({}))
@@ -366,8 +405,8 @@ def delHeadCore (delAll : Bool) (olds : List (Nat × List String)) (disk : List 
     match r.2 with
     | some e => (olds, r.1, dirs, some e)
     | none =>
-      if delAll then
-        let d2 := removeTxts pd r.1
+      if c.delAll then
+        let d2 := cleanDir c pd adr r.1
         let rd := rmdirs pd d2 dirs
         match rd.2 with
         | some e => (olds, d2, rd.1, some e)
@@ -375,7 +414,7 @@ def delHeadCore (delAll : Bool) (olds : List (Nat × List String)) (disk : List 
       else (rest, r.1, dirs, none)
 
 def delHead (s : St) : St × Option Err :=
-  let r := delHeadCore s.delAll s.pnOlds s.disk s.dirs
+  let r := delHeadCore s.delCfg s.pnOlds s.disk s.dirs
   ({ s with pnOlds := r.1, disk := r.2.1, dirs := r.2.2.1 }, r.2.2.2)
 
 /-- `delete_old and pn_old > self.n - 2` -/
@@ -451,8 +490,9 @@ def initDirs : List (Nat × List String) → List DDir
   | [] => []
   | (pn, _) :: t => .path pn :: .accepted pn :: initDirs t
 
-def init (n : Nat) (delOld delAll : Bool) (paths : List (Nat × List String)) : St :=
-  { n := n, delOld := delOld, delAll := delAll, trajNum := n - 1, live := paths.map (·.1),
+def init (n : Nat) (delOld delAll : Bool) (paths : List (Nat × List String))
+    (variant : Variant := .repaired) (keep : List String := []) : St :=
+  { n := n, delOld := delOld, delAll := delAll, variant := variant, keep := keep, trajNum := n - 1, live := paths.map (·.1),
     trajData := paths, pnOlds := [], disk := initFiles paths, dirs := initDirs paths,
     restart := paths.map (·.1), pending := [], cnt := 0, txt := paths }
 
